@@ -7,6 +7,7 @@ from geneticengine.algorithms.gp.gp import GeneticProgramming, default_generic_p
 from geneticengine.algorithms.gp.operators.combinators import ExclusiveParallelStep, IdentityStep, ParallelStep, SequenceStep
 from geneticengine.algorithms.gp.operators.crossover import GenericCrossoverStep
 from geneticengine.algorithms.gp.operators.elitism import ElitismStep
+from geneticengine.algorithms.gp.operators.evaluation import EvaluateStep
 from geneticengine.algorithms.gp.operators.initializers import HalfAndHalfInitializer, StandardInitializer
 from geneticengine.algorithms.gp.operators.mutation import GenericMutationStep
 from geneticengine.algorithms.gp.operators.novelty import NoveltyStep
@@ -32,7 +33,7 @@ from checks.common import exc_brief, is_library_error, make_rep
 
 PROP = "C15"
 TECHNIQUE = (
-    "exhaustive enumeration of step terms (8 leaves, Sequence / Parallel / ExclusiveParallel to nesting depth 2-3) x "
+    "exhaustive enumeration of step terms (9 leaves, Sequence / Parallel / ExclusiveParallel to nesting depth 2-3) x "
     "weight vectors over {0,1,2,3}^k and 5/5/90 x population sizes 2-7 x requested sizes x iterable form of the input, "
     "applied with the real steps on a stub representation (random answers explored by E1 with a deviation bound); all "
     "initialisers; real GP runs observed per generation through a recorder"
@@ -42,14 +43,14 @@ RULE = (
     "non-trivial = term with a combinator whose rounded shares do not add up to k, or a one-shot iterator input"
 )
 
-LEAVES = ["E", "N", "T", "Tr", "M", "Mh", "X", "I"]
+LEAVES = ["E", "N", "T", "Tr", "M", "Mh", "X", "I", "Ev"]
 
 
 def leaf(name):
     return {
         "E": lambda: ElitismStep(), "N": lambda: NoveltyStep(), "T": lambda: TournamentSelection(2),
         "Tr": lambda: TournamentSelection(2, with_replacement=True), "M": lambda: GenericMutationStep(1),
-        "Mh": lambda: GenericMutationStep(0.5), "X": lambda: GenericCrossoverStep(1), "I": lambda: IdentityStep(),
+        "Mh": lambda: GenericMutationStep(0.5), "X": lambda: GenericCrossoverStep(1), "I": lambda: IdentityStep(), "Ev": lambda: EvaluateStep(),
     }[name]()
 
 
@@ -77,7 +78,7 @@ def terms(tier):
     out = [l for l in LEAVES]
     for a, b in itertools.product(LEAVES, repeat=2):
         out.append(["seq", a, b])
-    pairs = list(itertools.product(["E", "N", "T", "M", "X", "I"], repeat=2))
+    pairs = list(itertools.product(["E", "N", "T", "M", "X", "I", "Ev"], repeat=2))
     for a, b in pairs:
         for w in weight_vectors(2):
             out.append(["par", w, a, b])
